@@ -413,7 +413,16 @@ func c06Unique(p *ana.Prog, r *ana.Result, hr *ssa.Function) {
 		}
 	})
 	s2 := &ana.Search{Fn: hr, Cut: func(e ana.Edge) bool { return initEdges[e] }, Target: isConsume}
-	if found, w := s2.Run(bumpIn); found {
+	found2, w2 := s2.Run(bumpIn)
+	if found2 {
+		// second opinion with the facts that hold when the bump is reached (a `dup` flag that is
+		// known to be set there decides that the outer loop goes round again)
+		s3 := &ana.Search{Fn: hr, Cut: func(e ana.Edge) bool { return initEdges[e] }, Target: isConsume, ArmAt: bumpIn}
+		if f3, _ := s3.Run(nil); !f3 {
+			found2 = false
+		}
+	}
+	if found, w := found2, w2; found {
 		r.Violate("C06.unique", fname, "bump-forces-full-rescan", posOf(p, bumpIn), "after bumping the receive timestamp the entries already scanned are not compared again (scan continues instead of restarting at index 0): the bumped value can equal an earlier entry", w...)
 	} else {
 		r.Ok("C06.unique", fname, "bump-forces-full-rescan", posOf(p, bumpIn), "after a bump the stores are reachable only through re-entering the scan with i = 0")
@@ -1007,6 +1016,9 @@ func c06Listener(p *ana.Prog, r *ana.Result, name string, scion bool) {
 		st, ok := in.(*ssa.Store)
 		if !ok || st.Addr != ssa.Value(txt1) {
 			return
+		}
+		if ld, isLd := st.Val.(*ssa.UnOp); isLd && ld.Op == token.MUL && ld.X == ssa.Value(txt1) {
+			return // the variable assigned to itself (a helper's result written back): no change
 		}
 		switch {
 		case kern != nil && st.Val == ssa.Value(kern):
